@@ -158,6 +158,135 @@ def test_repo_suite():
     return passed, int(failed.group(1)) if failed else 0, int(errors.group(1)) if errors else 0, out
 
 
+def _conc(v, model):
+    """concrete Python value of an engine value under a model"""
+    if isinstance(v, SymStr):
+        return "".join(chr(_conc(c, model)) if not isinstance(c, str) else c for c in [x.code if isinstance(x, SymChar) else x for x in v.chars])
+    if isinstance(v, SymChar):
+        return chr(_conc(v.code, model))
+    if isinstance(v, SymSeq):
+        out = []
+        for it in v.items:
+            assert not isinstance(it, Piece), "abstract piece in a result"
+            out.append(_conc(it, model))
+        return bytes(out) if v.kind == "bytes" else bytearray(out)
+    if isinstance(v, SymInt):
+        return model.eval(v.t, model_completion=True).as_long()
+    if isinstance(v, SymBool):
+        return bool(z3.is_true(model.eval(v.t, model_completion=True)))
+    if isinstance(v, (list, tuple)):
+        return type(v)(_conc(x, model) for x in v)
+    return v
+
+
+def test_text_models(seed):
+    """str / bytes method models against CPython: the operand's characters are solver variables pinned to the concrete values, so the
+    model takes the same decisions the concrete run takes"""
+    rnd = random.Random(seed + 7)
+    alphabet = "ab:=# \t\n\r\x0b\x0c\x1c\x85x05A9-_/."
+    n = 0
+    str_ops = [
+        ("strip", ()), ("lstrip", ()), ("rstrip", ()), ("strip", ("a: ",)), ("lstrip", ("ab",)), ("rstrip", ("\n=",)),
+        ("partition", (":",)), ("rpartition", (":",)), ("partition", ("=#",)), ("split", (":",)), ("split", ("=",)), ("split", (None,)), ("split", ("ab",)),
+        ("split", (":", 1)), ("rsplit", (":", 1)), ("rsplit", ("=",)), ("splitlines", ()), ("find", ("b",)), ("find", ("ab",)), ("rfind", ("a",)), ("count", ("a",)), ("count", ("ab",)),
+        ("replace", ("a", "xyz")), ("replace", ("ab", "")), ("replace", (":", "=", 1)), ("startswith", ("ab",)), ("startswith", (("x", "a"),)), ("endswith", ((".", "b"),)),
+        ("upper", ()), ("lower", ()), ("isdecimal", ()), ("isdigit", ()), ("isalpha", ()), ("isalnum", ()), ("isspace", ()), ("zfill", (5,)), ("ljust", (6, "*")), ("rjust", (6,)),
+        ("__contains__", ("b:",)), ("__mul__", (2,)),
+    ]
+    for it in range(60):
+        text = "".join(rnd.choice(alphabet) for _ in range(rnd.randrange(0, 7)))
+        if it % 5 == 0:
+            text = "".join(rnd.choice("0123456789") for _ in range(rnd.randrange(1, 5)))
+        for name, args in str_ops:
+            c = Ctx([])
+            core.CTX = c
+            vs = [z3.Int("c%d" % i) for i in range(len(text))]
+            for v, ch in zip(vs, text):
+                c.assume(v == ord(ch))
+            sym = SymStr([SymChar(SymInt(v, ub=0x110000)) for v in vs])
+            try:
+                exp = getattr(text, name)(*args)
+                exp_exc = None
+            except Exception as e:
+                exp, exp_exc = None, type(e)
+            try:
+                got = getattr(sym, name)(*args)
+                got_exc = None
+            except core.Unsupported:
+                continue
+            except Exception as e:
+                got, got_exc = None, type(e)
+            assert got_exc == exp_exc, ("str.%s%r on %r: model raised %r, python %r" % (name, args, text, got_exc, exp_exc))
+            if exp_exc is None:
+                assert c.check() == z3.sat
+                g = _conc(got, c.solver.model())
+                assert g == exp and type(g) == type(exp) or (isinstance(exp, tuple) and tuple(g) == exp), ("str.%s%r on %r: model %r, python %r" % (name, args, text, g, exp))
+            n += 1
+    bytes_ops = [("find", (b"b",)), ("find", (b"ab",)), ("find", (58,)), ("rfind", (b"a",)), ("count", (b"a",)), ("replace", (b"a", b"xy")), ("split", (b":",)), ("split", (b":", 1)),
+                 ("startswith", (b"ab",)), ("endswith", (b"b",)), ("endswith", ((b".", b"b"),)), ("hex", ()), ("lower", ()), ("upper", ()), ("isdigit", ()), ("strip", ()), ("lstrip", (b"a\x05",)),
+                 ("rstrip", (b"\x05",)), ("__contains__", (b"b:",)), ("__contains__", (97,))]
+    for it in range(60):
+        data = bytes(rnd.choice(b"ab:\x05\x00 9A.") for _ in range(rnd.randrange(0, 7)))
+        for name, args in bytes_ops:
+            c = Ctx([])
+            core.CTX = c
+            vs = [z3.Int("b%d" % i) for i in range(len(data))]
+            for v, b in zip(vs, data):
+                c.assume(v == b)
+            sym = SymSeq([SymInt(v, ub=256) for v in vs], "bytes")
+            exp = getattr(data, name)(*args)
+            try:
+                got = getattr(sym, name)(*args)
+            except core.Unsupported:
+                continue
+            assert c.check() == z3.sat
+            g = _conc(got, c.solver.model())
+            if isinstance(exp, list):
+                g = [bytes(x) for x in g]
+            assert g == exp, ("bytes.%s%r on %r: model %r, python %r" % (name, args, data, g, exp))
+            n += 1
+        # integer conversions
+        c = Ctx([])
+        core.CTX = c
+        vs = [z3.Int("b%d" % i) for i in range(len(data))]
+        for v, b in zip(vs, data):
+            c.assume(v == b)
+        sym = SymSeq([SymInt(v, ub=256) for v in vs], "bytes")
+        for order in ("big", "little"):
+            got = hooks.i_from_bytes(sym, order)
+            assert c.check() == z3.sat
+            assert _conc(got, c.solver.model()) == int.from_bytes(data, order), ("int.from_bytes", data, order)
+            n += 1
+        val = int.from_bytes(data[:4], "big")
+        x = z3.Int("x")
+        c.assume(x == val)
+        for ln in (1, 2, 4):
+            for order in ("big", "little"):
+                try:
+                    exp = val.to_bytes(ln, order)
+                except OverflowError:
+                    exp = OverflowError
+                try:
+                    got = SymInt(x).to_bytes(ln, order)
+                    assert c.check() == z3.sat
+                    got = _conc(got, c.solver.model())
+                except OverflowError:
+                    got = OverflowError
+                assert got == exp, ("to_bytes", val, ln, order, got, exp)
+                n += 1
+        hx = data.hex()
+        cs = Ctx([])
+        core.CTX = cs
+        hv = [z3.Int("h%d" % i) for i in range(len(hx))]
+        for v, ch in zip(hv, hx):
+            cs.assume(v == ord(ch))
+        got = hooks.i_fromhex(SymStr([SymChar(SymInt(v, ub=128)) for v in hv]))
+        assert cs.check() == z3.sat and _conc(got, cs.solver.model()) == data
+        n += 1
+    core.CTX = None
+    return n
+
+
 def test_symsql(seed):
     """the symbolic SQL engine against the real sqlite3 library: the repository's store classes are driven through the same
     random operation sequences (concrete values) on both, incl. process deaths (connection abandoned without commit) and
@@ -298,6 +427,7 @@ def main():
         res["symint_points"] = test_symint(seed)
         res["struct_hex_points"] = test_struct_hex(seed)
         res["rope_points"] = test_ropes(seed)
+        res["text_model_points"] = test_text_models(seed)
         res["symsql_vs_sqlite_points"] = test_symsql(seed)
     except AssertionError as e:
         print("SELFTEST FAILED (intrinsic model differs from CPython): %s" % (e,))
